@@ -321,10 +321,30 @@ def prove_contract(c: Contract, registry: dict[str, Contract], tier: str, call=N
                 else:
                     rep["unknown"].append(rec)
             rep["results"].append({k: v for k, v in rec.items() if k not in ("replay_args",)})
+    # vacuity guard (with the quantified assumptions too): the hypotheses under which the postconditions of a return
+    # were discharged must not be refutable themselves
+    seen_h: set = set()
+    vac = []
+    import z3 as _z3
+    for ob in obls:
+        if ob.kind != "post":
+            continue
+        key = tuple(h.get_id() for h in ob.hyps)
+        if key in seen_h:
+            continue
+        seen_h.add(key)
+        r_, _, dt_ = solve.check(ob.hyps, _z3.BoolVal(False), 400, use_lemmas=False)
+        rep["solver_s"] += dt_
+        if r_ == _z3.unsat:
+            vac.append(ob.line)
+    rep["vacuity_checks"] = len(seen_h)
+    if vac:
+        rep.update(rung="vacuous", reason=f"the assumptions on the way to the return at line(s) {sorted(set(vac))} are "
+                                          f"contradictory: nothing is proved of those paths")
     rep["backends"] = sorted(backends)
     rep["solver_s"] = round(rep["solver_s"], 3)
     rep["wall_s"] = round(time.time() - t0, 3)
-    if rep["discharged"] != rep["obligations"]:
+    if rep["discharged"] != rep["obligations"] and rep["rung"] != "vacuous":
         rep["rung"] = "proof-incomplete"
     if rep["obligations"] == 0:
         rep["rung"] = "vacuous"
